@@ -36,6 +36,20 @@ theorem close1_clean (s : St) (v : Var) (h : s.Clean) (hv : v ∈ s.opn) :
   rw [e]
   exact ⟨⟨h1, h2, h3.erase v⟩, rfl⟩
 
+theorem opensAll_sound : ∀ (vs : List Var) (s : St) (o1 : List Var), s.Clean → opensAll s.opn vs = some o1 →
+    (vs.foldl St.open1 s).Clean ∧ (vs.foldl St.open1 s).opn = o1
+  | [], s, o1, hc, h => by
+    simp only [opensAll, Option.some.injEq] at h
+    subst h
+    exact ⟨hc, rfl⟩
+  | v :: r, s, o1, hc, h => by
+    simp only [opensAll] at h
+    split at h
+    · cases h
+    · rename_i hv
+      simp at hv
+      exact opensAll_sound r (s.open1 v) o1 (open1_clean s v hc hv) h
+
 theorem effOk_sound (s : St) (eff : Eff) (o1 : List Var) (hc : s.Clean)
     (h : effOk s.opn eff = some o1) : (s.applyOk eff).Clean ∧ (s.applyOk eff).opn = o1 := by
   cases eff with
@@ -69,6 +83,7 @@ theorem effOk_sound (s : St) (eff : Eff) (o1 : List Var) (hc : s.Clean)
         simp only [St.open1, List.mem_cons, not_or]
         exact ⟨fun e => hne e.symm, hw⟩
       exact ⟨open1_clean _ w c1 this, rfl⟩
+  | opensL vs => exact opensAll_sound vs s o1 hc h
   | closes v =>
     simp only [effOk] at h
     split at h
@@ -100,6 +115,7 @@ theorem effErr_sound (s : St) (eff : Eff) (o1 : List Var) (hc : s.Clean)
   | none => simp [effErr] at h; subst h; exact ⟨hc, rfl⟩
   | opens v => simp [effErr] at h; subst h; exact ⟨hc, rfl⟩
   | opens2 v w => simp [effErr] at h; subst h; exact ⟨hc, rfl⟩
+  | opensL vs => simp [effErr] at h; subst h; exact ⟨hc, rfl⟩
   | maps v => simp [effErr] at h; subst h; exact ⟨hc, rfl⟩
   | unmaps v => simp [effErr] at h; subst h; exact ⟨hc, rfl⟩
 
@@ -429,12 +445,18 @@ theorem kinv_close1 (T : List Nat) (st : St) (k : KTab) (v : Var) (h : KInv T st
     simp only [KTab.close1, hl]
     exact ⟨by rw [e]; exact h1, h2, h3⟩
 
+theorem kinv_openAll (T : List Nat) : ∀ (vs : List Var) (st : St) (k : KTab), KInv T st k →
+    KInv T (vs.foldl St.open1 st) (vs.foldl KTab.open1 k)
+  | [], _, _, h => h
+  | v :: r, st, k, h => kinv_openAll T r (st.open1 v) (k.open1 v) (kinv_open1 T st k v h)
+
 theorem kinv_applyOk (T : List Nat) (st : St) (k : KTab) (eff : Eff) (h : KInv T st k) :
     KInv T (st.applyOk eff) (k.applyOk eff) := by
   cases eff with
   | none => exact h
   | opens v => exact kinv_open1 T st k v h
   | opens2 v w => exact kinv_open1 T _ _ w (kinv_open1 T st k v h)
+  | opensL vs => exact kinv_openAll T vs st k h
   | closes v => exact kinv_close1 T st k v h
   | maps v => exact kinv_map1 T st k v h
   | unmaps v => exact kinv_close1 T st k v h
@@ -446,6 +468,7 @@ theorem kinv_applyErr (T : List Nat) (st : St) (k : KTab) (eff : Eff) (h : KInv 
   | none => exact h
   | opens v => exact h
   | opens2 v w => exact h
+  | opensL vs => exact h
   | maps v => exact h
   | unmaps v => exact h
 
